@@ -24,6 +24,7 @@ def check(ctx):
     repo = ctx.repo
     from . import generic as _gen
     _gen.language_traps(ctx, _gen.anchor_functions(repo, "C03"), "the property holds for every input, on every call")
+    _gen.rank_orders_values(ctx, repo.fn("dataiter.vector.Vector.rank"), "numbers numerically ... object columns of mutually comparable values")
     ctx.rule("IDX-1", "one loop-invariant row index for all yielded columns")
     ctx.rule("ORD-1", "lexsort keys in reversed user order; rank(method='min'); no other sort primitive")
     ctx.rule("DIR", "uses of dir dominated by the 1/-1 validation")
